@@ -49,6 +49,51 @@ def run(chk, scratch):
                         sig_of=sig_of, count_traces=count_traces)
         ev = vlib.read_ndjson(tr)
         chk.sample({"trace_head": ev[:4]})
+    # 4. growth (outside the listed property): the rest of the `collection` package - the Conditions object as a little state
+    #    machine (Collection.tla) and the slice helpers over a six-item alphabet (CollectionSlices.tla); every answer of the real
+    #    package is recomputed by CollectionTrace.tla from CollectionOps.tla.  Discrepancies are observations, never alarms.
+    import json
+    import random
+    from props.c04 import judge
+    for cfg, must in (("Collection_membership.cfg", "ContainsIsMembership"), ("CollectionSlices_lowest.cfg", "CodedIsLowest"),
+                      ("CollectionSlices_inplace.cfg", "CallerSliceKept")):
+        rs = vlib.run_tlc(scratch, [SPEC], cfg.split("_")[0], cfg, workers=2, timeout=300, deadlock=False, fast="tiny", parse_behaviours=False)
+        vlib.tlc_must_pass(rs, cfg)
+        chk.add_tlc("%s (must violate %s: a named deviation of the code from the plain reading)" % (cfg, must), rs)
+        if rs.violated != must:
+            raise vlib.Inconclusive("sensitivity self-test failed: %s reported %s" % (cfg, rs.violated))
+    cb = common.emit_behaviours(chk, scratch, SPEC, "Collection", "Collection.cfg", "Conditions object: histories of Add/Concat/Negate with every reduction",
+                                workers=1, fast="tiny", limit=(None if thorough else 1500), seed=chk.seed)
+    cb += common.emit_behaviours(chk, scratch, SPEC, "CollectionSlices", "CollectionSlices.cfg", "slice helpers: strict x slice x wanted values",
+                                 workers=1, fast="tiny", limit=(None if thorough else 1500), seed=chk.seed)
+    for b in cb:
+        for st in b.get("hist", []):        # the answers the model computed stay with the model: the judge recomputes them
+            st.pop("ret", None)
+            st.pop("after", None)
+    inp = os.path.join(scratch, "c19-collection.ndjson")
+    vlib.write_ndjson(inp, cb)
+    ctr = os.path.join(scratch, "c19-collection-trace.ndjson")
+    p = vlib.run_vh(vh, ["c19", "collection", "--in", inp, "--out", ctr], timeout=600)
+    if p.returncode != 0:
+        raise vlib.Inconclusive("c19 collection driver failed: " + (p.stderr or "")[-1500:])
+    obs = common.Observing(chk)
+    evc = judge(obs, scratch, ctr, "collection package answers", spec="CollectionTrace", spec_dir=SPEC)
+    chk.cov["collection_scenarios_judged"] = len(evc)
+    chk.cov["observations_outside_the_listed_property"] = dict(obs.seen)
+    # binding self-test: one corrupted answer in a copy of the trace must be noticed by the judge
+    sl = [e for e in evc if e["op"] == "Slices" and e["vals"] and e["slice"]][:40]
+    if sl:
+        bad = json.loads(json.dumps(sl))
+        k = random.Random(chk.seed).randrange(len(bad))
+        bad[k]["found"] = not bad[k]["found"]
+        btr = os.path.join(scratch, "c19-collection-corrupt.ndjson")
+        vlib.write_ndjson(btr, bad)
+        probe = common.Observing(chk)
+        ev0, tr0 = chk.evaluations, chk.traces
+        judge(probe, scratch, btr, "collection judge self-test (one corrupted answer)", spec="CollectionTrace", spec_dir=SPEC)
+        chk.evaluations, chk.traces = ev0, tr0
+        if not any(k2.startswith("observation:find-in-slice") for k2 in probe.seen):
+            raise vlib.Inconclusive("binding self-test failed: CollectionTrace.tla accepted a corrupted FindInSlice answer")
     chk.cov["rule"] = ("behaviour = collection (page sizes, next/future links, failure position) + call sequence drawn by TLC; "
                        "non-trivial = more than two calls; replayed on static+dynamic or the two stream paginators")
     chk.assumptions += ["harness pages implement IStaticPage/IPage/IStream faithfully", "grace period 120 ms; stalled steps are skipped"]
